@@ -1460,17 +1460,12 @@ func formatSpec(f string, args []V, kw []V) (V, bool) {
 				return errV, true
 			}
 			manual = true
-			if len(name) > 9 {
-				return errV, true // far beyond any argument list
+			// a decimal number of any size (leading zeros allowed): the index of a positional argument
+			n, _ := new(big.Int).SetString(name, 10)
+			if n.Cmp(big.NewInt(int64(len(args)))) >= 0 {
+				return errV, true // index out of range, however large
 			}
-			n := 0
-			for k := 0; k < len(name); k++ {
-				n = n*10 + int(name[k]-'0')
-			}
-			if n >= len(args) {
-				return errV, true
-			}
-			arg = &args[n]
+			arg = &args[n.Int64()]
 		default:
 			for k := 0; k+1 < len(kw); k += 2 {
 				if kw[k].str() == name {
